@@ -500,7 +500,7 @@ def run(tier, fx=None, ck=None, control=False):
         for rb, rt, _ in rem:
             # no call to local code before the removal
             before = [bi for bi, t in r.calls() if t[1].get("local") and r.dominates(bi, rb) and bi != rb]
-            rets = [bi for bi, bl in enumerate(r.blocks) if bl["t"][0] == "return"]
+            rets = [bi for bi, bl in enumerate(r.blocks) if bl["t"][0] == "ret"]
             if not before and all(r.dominates(rb, x) for x in rets):
                 first_ok = True
         ck.instance("R6.loader-progress", "%s removes the module from the pending table first" % r.path, F.short_span(r.span), ok=first_ok)
